@@ -389,6 +389,358 @@ def check_C10(tier, seed):
         "match_loc, match_ text, peek, decision) and every token / custom error in full")
 
 
+# ---------------------------------------------------------------------------------------------
+# Implementation -> specification on random long inputs (trace validation by TLC)
+# ---------------------------------------------------------------------------------------------
+
+def scripted_expected(tag, prog, inp, script):
+    """Expected behaviour of RefLexer for one input and the decisions the real run was offered."""
+    import copy
+    from pipeline import tlc_expected
+    q = copy.copy(prog)
+    q.inputs = [list(inp)]
+    res = tlc_expected(tag + "_exp", [q], workers=2, timeout=300)
+    if not res.ok:
+        raise ToolError("TLC failed computing the expected behaviour: %s" % res.error)
+    rules = prog.rules()
+    for rp in res.tagged.get("REPLAY", []):
+        ok = True
+        j = 0
+        for e in rp["ev"]:
+            if e["k"] == "A":
+                want = (script[j] if j < len(script) else 0) % len(rules[e["r"]]["menu"])
+                if e["ch"] != want:
+                    ok = False
+                    break
+                j += 1
+        if ok:
+            return rp["ev"]
+    raise ToolError("no specification behaviour follows the offered script")
+
+
+def random_inputs(rnd, prog, n_runs, maxlen, extra=()):
+    reqs = []
+    sig = prog.sigma
+    for t in range(n_runs):
+        r = rnd.random()
+        if r < 0.05:
+            inp = []
+        elif r < 0.15:
+            inp = [rnd.choice(sig)] * rnd.randrange(1, maxlen)
+        else:
+            n = rnd.randrange(1, maxlen)
+            # biased towards the program's own letters, with a few foreign characters
+            inp = [rnd.choice(sig) for _ in range(n)]
+        script = [rnd.randrange(6) for _ in range(len(inp) + 2)]
+        reqs.append({"p": prog.id, "inp": inp, "script": script, "ctor": 0, "clone_at": -1,
+                     "sched": []})
+    for inp in extra:
+        reqs.append({"p": prog.id, "inp": list(inp), "script": [], "ctor": 0, "clone_at": -1,
+                     "sched": [], "notx": True})
+    return reqs
+
+
+def corrupt(run, rnd):
+    """A deliberately wrong copy of a recorded run (must be rejected: binding self-test)."""
+    import copy
+    r = copy.deepcopy(run)
+    evs = r["ev"]
+    cands = [i for i, e in enumerate(evs) if e["k"] in ("T", "A", "I", "C")]
+    if not cands:
+        evs.insert(0, {"k": "I", "at": [0, 0, 0]})
+        return r
+    i = rnd.choice(cands)
+    e = evs[i]
+    if e["k"] == "T":
+        e["e"] = [e["e"][0], e["e"][1] + 1, e["e"][2] + 1]
+    elif e["k"] == "A":
+        e["r"] = e["r"] + 1
+    else:
+        e["at"] = [e["at"][0], e["at"][1] + 1, e["at"][2] + 1]
+    return r
+
+
+def trace_part(out, pid, tier, progs, ws, batches, seed, n_runs, maxlen, proj, what,
+               ctors=(0,), extra_inputs=(), max_validate_len=80):
+    """Run the real lexers freely on random inputs, validate every recorded run with TLC against
+    Trace_RefLexer; for rejected runs compute the expected behaviour and judge by projection."""
+    import random
+    from pipeline import run_requests, validate_traces
+    rnd = random.Random(seed * 7919 + 13)
+    byid = {p.id: p for p in progs}
+    live = {p.id for b_ in batches for p in b_}
+    reqs = []
+    for p in progs:
+        if p.id not in live:
+            continue
+        rs = random_inputs(rnd, p, n_runs, maxlen, extra_inputs)
+        for r in rs:
+            r["ctor"] = rnd.choice(list(ctors))
+        reqs.extend(rs)
+    results = run_requests(ws, batches, reqs, pid)
+    runs = []
+    for i, (rq, rs) in enumerate(zip(reqs, results)):
+        if rs is None:
+            continue
+        runs.append({"i": i, "p": rq["p"], "inp": rq["inp"], "ev": rs["ev"]})
+    tovalidate = [r for r in runs if len(r["inp"]) <= max_validate_len]
+    canaries = []
+    for r in rnd.sample(tovalidate, min(20, len(tovalidate))):
+        c = corrupt(r, rnd)
+        c["i"] = -1 - len(canaries)
+        canaries.append(c)
+    tlc, accepted = validate_traces(pid, progs, tovalidate + canaries,
+                                    workers=8 if tier == "quick" else 14)
+    bad_canaries = [c for c in canaries if c["i"] in accepted]
+    if bad_canaries:
+        raise ToolError("trace validation accepted a deliberately corrupted recording: %s"
+                        % json.dumps(bad_canaries[0])[:500])
+    rejected = [r for r in tovalidate if r["i"] not in accepted]
+    other = 0
+    for r in rejected[:40]:
+        rq = reqs[r["i"]]
+        prog = byid[r["p"]]
+        exp = scripted_expected(pid, prog, r["inp"], rq["script"])
+        act = strip_lx(r["ev"])
+        if rq["ctor"] >= 2:
+            exp = [{k: v for k, v in e.items() if k != "tx"} for e in exp]
+        pe, pa = proj(exp), proj(act)
+        if pe == pa:
+            other += 1
+            continue
+        out.violations.append({
+            "key": "prog=%s input=%s script=%s ctor=%d" % (
+                prog.body().replace("\n", " ").replace("  ", " "), r["inp"], rq["script"], rq["ctor"]),
+            "desc": "%s (recorded run rejected by Trace_RefLexer): program %d input %s: expected %s, real lexer gave %s" % (
+                what, r["p"], r["inp"][:30], pe[:8], pa[:8]),
+            "payload": {"kind": "replay", "program": prog.to_json(), "src": prog.body(),
+                        "input": r["inp"], "script": rq["script"], "ctor": rq["ctor"],
+                        "clone_at": -1, "sched": [], "expected": exp, "actual": act,
+                        "first_divergence": first_divergence(pe, pa)},
+        })
+    cov = out.coverage
+    cov["random_runs_recorded"] = len(runs)
+    cov["random_runs_validated_by_tlc"] = len(tovalidate)
+    cov["random_runs_accepted"] = len(tovalidate) - len(rejected)
+    cov["random_runs_rejected"] = len(rejected)
+    cov["random_rejected_outside_projection"] = other
+    cov["corrupted_recordings_rejected"] = len(canaries)
+    cov["trace_states"] = tlc.distinct
+    cov["trace_tlc_wall_s"] = round(tlc.wall, 1)
+    cov["traces_validated_against_impl"] = cov.get("traces_validated_against_impl", 0) + len(tovalidate) - len(rejected)
+    cov["states"] = cov.get("states", 0) + tlc.distinct
+    cov["transitions"] = cov.get("transitions", 0) + tlc.states
+    if tovalidate:
+        cov.setdefault("samples", []).append({"recorded_run": {k: tovalidate[0][k] for k in ("p", "inp", "ev")}})
+    return runs, reqs
+
+
+def c09_reason(evs, n_chars, free_running):
+    items = 0
+    acts = 0
+    saw_none = False
+    for e in evs:
+        k = e["k"]
+        if k == "P":
+            return "panic: %s" % e.get("msg", "")[:200]
+        if k == "H":
+            return "a next() call did not return (watchdog)"
+        if k == "A" and not saw_none:
+            acts += 1
+        if k in "TIC":
+            if saw_none:
+                return "an item was produced after None"
+            items += 1
+        if k == "N":
+            saw_none = True
+    if items > n_chars + 1:
+        return "%d items before None for %d characters" % (items, n_chars)
+    if acts > n_chars + 1:
+        return "%d action invocations for %d characters" % (acts, n_chars)
+    if free_running and not saw_none:
+        return "no None within %d calls for %d characters" % (n_chars + 6, n_chars)
+    return None
+
+
+def check_C09(tier, seed):
+    out = Outcome("C09")
+    n, k = sizes(tier, (50, 3), (500, 4))
+    progs = (F.random_general(seed, n, 100, k=k, nsets=(1, 2, 3), nrules=(0, 1, 2, 3, 4), p_ctx=0.2,
+                              p_eoi=0.2, menu_sizes=(1, 2, 3), p_fal=0.3)
+             + F.fixed_mm(5000))
+    byid = {p.id: p for p in progs}
+    fr = replay_family("C09", progs, workers=8 if tier == "quick" else 14,
+                       tlc_timeout=700 if tier == "quick" else 3300)
+    out.coverage = base_coverage(
+        fr, "programs: seeded random definitions of every kind (several rule sets, empty rule sets, "
+            "contexts, `$` rules, all decision menus) + the fixed maximal-munch shapes; part 1: every "
+            "behaviour of RefLexer.tla for all inputs of length <= k replayed (TLC also checks the "
+            "variant Progress and the bound Bounded on the specification); part 2: the real lexers "
+            "run freely (until None plus three calls, budget n+6 calls, panics caught, watchdog) on "
+            "random inputs up to 60 characters, the empty input, runs of one repeated character and "
+            "long inputs; each recording <= 80 characters is validated by TLC against "
+            "Trace_RefLexer.tla; non-trivial = distinct (program, input, script)")
+
+    def judge(desc_prefix, prog, req, actual, free):
+        why = c09_reason(actual, len(req["inp"]), free)
+        if why is None:
+            return False
+        out.violations.append({
+            "key": "prog=%s input=%s script=%s" % (prog.body().replace("\n", " ").replace("  ", " "),
+                                                   req["inp"][:50], req["script"][:50]),
+            "desc": "%s program %d input %s (len %d): %s" % (desc_prefix, prog.id, req["inp"][:20],
+                                                            len(req["inp"]), why),
+            "payload": {"kind": "replay", "program": prog.to_json(), "src": prog.body(),
+                        "input": req["inp"], "script": req["script"], "ctor": req.get("ctor", 0),
+                        "clone_at": -1, "sched": [], "actual": actual[:200], "why": why},
+        })
+        return True
+
+    other = 0
+    for m in fr.mismatches:
+        if not judge("replay:", byid[m["req"]["p"]], m["req"], strip_lx(m["actual"]), False):
+            other += 1
+    out.coverage["mismatches_outside_projection"] = other
+    if fr.ws is not None:
+        live = [p for b_ in fr.batches for p in b_]
+        longn = 20000 if tier == "quick" else 100000
+        extra = []
+        runs, reqs = trace_part(out, "C09", tier, progs, fr.ws, fr.batches, seed,
+                                sizes(tier, 40, 300), 60, lambda evs: [c09_reason(evs, 10 ** 9, False)],
+                                "termination/progress/panic-freedom",
+                                extra_inputs=[[c] * longn for c in (97, 120)] + [[120, 97] * 500])
+        n_long = 0
+        for r in runs:
+            rq = reqs[r["i"]]
+            judge("free run:", byid[r["p"]], rq, strip_lx(r["ev"]), True)
+            if len(r["inp"]) > 80:
+                n_long += 1
+        out.coverage["long_runs_checked_by_count_only"] = n_long
+    for f in fr.build_failures:
+        out.notes.append("program %d dropped: %s -- judged by C12" % (f["program"], f["kind"]))
+    # de-duplicate violations found through both routes
+    seen = set()
+    uniq = []
+    for v in out.violations:
+        if v["key"] not in seen:
+            seen.add(v["key"])
+            uniq.append(v)
+    out.violations = uniq
+    return out
+
+
+def check_C14(tier, seed):
+    """The four constructors: every behaviour replayed through each; the four recorded streams
+    must be the same stream (the reference stream serves as the common oracle)."""
+    out = Outcome("C14")
+    n, k = sizes(tier, (40, 3), (400, 4))
+    progs = (F.random_general(seed, n, 100, k=k, nsets=(1, 2, 2), nrules=(1, 2, 3, 4), p_ctx=0.2,
+                              p_eoi=0.2, menu_sizes=(1, 2), p_fal=0.2, sigma=(F.A, F.B, F.C, 233, 28450))
+             + F.fixed_mm(5000)[:6])
+    byid = {p.id: p for p in progs}
+    fr = replay_family("C14", progs, ctors=(0, 1, 2, 3), workers=8 if tier == "quick" else 14,
+                       tlc_timeout=700 if tier == "quick" else 3300)
+    out.coverage = base_coverage(
+        fr, "programs: seeded random definitions (rewinding rules, contexts, `$`, several rule "
+            "sets, multi-byte characters in the alphabet); every behaviour of RefLexer.tla for all "
+            "inputs <= k is replayed through new, new_with_state, new_from_iter and "
+            "new_from_iter_with_state (iterator: a cloneable iterator over shared storage); the "
+            "four recorded streams (without match_() text) must be identical; then random inputs "
+            "up to 60 characters through a random constructor each, validated by TLC against "
+            "Trace_RefLexer.tla")
+    # group by behaviour
+    actual = {}
+    for m in fr.mismatches:
+        rq = m["req"]
+        actual[(rq["p"], tuple(rq["inp"]), tuple(rq["script"]), rq["ctor"])] = strip_lx(m["actual"])
+
+    def notx(evs):
+        return [{k_: v for k_, v in e.items() if k_ != "tx"} for e in evs]
+
+    groups = {}
+    for m in fr.mismatches:
+        rq = m["req"]
+        groups.setdefault((rq["p"], tuple(rq["inp"]), tuple(rq["script"])), rq)
+    other = 0
+    for key, rq in groups.items():
+        streams = []
+        for c in (0, 1, 2, 3):
+            a = actual.get(key + (c,))
+            streams.append(notx(a if a is not None else rq["ev"]))
+        if all(s_ == streams[0] for s_ in streams):
+            other += 1
+            continue
+        prog = byid[key[0]]
+        dif = [c for c in (1, 2, 3) if streams[c] != streams[0]]
+        out.violations.append({
+            "key": "prog=%s input=%s script=%s" % (prog.body().replace("\n", " ").replace("  ", " "),
+                                                   list(key[1]), list(key[2])),
+            "desc": "constructors disagree: program %d input %s: constructor(s) %s give a different stream than `new`" % (
+                key[0], list(key[1]), dif),
+            "payload": {"kind": "replay", "program": prog.to_json(), "src": prog.body(),
+                        "input": list(key[1]), "script": list(key[2]), "ctor": dif[0], "clone_at": -1,
+                        "sched": [], "expected": rq["ev"], "streams": streams},
+        })
+    out.coverage["mismatches_outside_projection"] = other
+    if fr.ws is not None:
+        trace_part(out, "C14", tier, progs, fr.ws, fr.batches, seed, sizes(tier, 30, 200), 60,
+                   lambda evs: [{k_: v for k_, v in e.items() if k_ not in ("tx",)} for e in evs],
+                   "stream of an iterator-built lexer differs from the specification",
+                   ctors=(0, 1, 2, 3))
+    return out
+
+
+def check_C15(tier, seed):
+    """Clone at every point: original and clone must both continue with the reference stream."""
+    out = Outcome("C15")
+    n, k = sizes(tier, (30, 3), (300, 4))
+    progs = F.random_general(seed, n, 100, k=k, nsets=(1, 2, 2), nrules=(1, 2, 3), p_ctx=0.2,
+                             p_eoi=0.2, menu_sizes=(1, 2), p_fal=0.25)
+    byid = {p.id: p for p in progs}
+    fr = replay_family("C15", progs, ctors=(0, 2), clone_points=True,
+                       workers=8 if tier == "quick" else 14,
+                       tlc_timeout=700 if tier == "quick" else 3300)
+    out.coverage = base_coverage(
+        fr, "programs: seeded random definitions with #[derive(Clone)] and a cloneable user state; "
+            "for every behaviour of RefLexer.tla (all inputs <= k, all decision histories) and "
+            "every clone point (before the first call, after every call including errors, "
+            "switches and the final None) the real lexer is cloned and original and clone are "
+            "advanced under three interleavings; both recorded suffix streams and both final user "
+            "states must equal the specification's (which is deterministic: one successor per "
+            "decision); also with iterator input")
+    # baseline: the same behaviour without cloning
+    base_bad = set()
+    for m in fr.mismatches:
+        rq = m["req"]
+        if rq["clone_at"] < 0:
+            base_bad.add((rq["p"], tuple(rq["inp"]), tuple(rq["script"]), rq["ctor"]))
+    other = 0
+    for m in fr.mismatches:
+        rq = m["req"]
+        if rq["clone_at"] < 0:
+            other += 1
+            continue
+        if (rq["p"], tuple(rq["inp"]), tuple(rq["script"]), rq["ctor"]) in base_bad:
+            other += 1     # the un-cloned run already differs: some other property's business
+            continue
+        prog = byid[rq["p"]]
+        out.violations.append({
+            "key": "prog=%s input=%s script=%s clone_at=%d sched=%s" % (
+                prog.body().replace("\n", " ").replace("  ", " "), rq["inp"], rq["script"],
+                rq["clone_at"], rq["sched"]),
+            "desc": "program %d input %s: cloning after call %d (schedule %s) changed the stream of the original or of the clone" % (
+                rq["p"], rq["inp"], rq["clone_at"], rq["sched"]),
+            "payload": {"kind": "replay", "program": prog.to_json(), "src": prog.body(),
+                        "input": rq["inp"], "script": rq["script"], "ctor": rq["ctor"],
+                        "clone_at": rq["clone_at"], "sched": rq["sched"], "expected": rq["ev"],
+                        "actual": m["actual"]},
+        })
+        if len(out.violations) > 100:
+            break
+    out.coverage["mismatches_outside_projection"] = other
+    return out
+
+
 def setup():
     """Warm the cargo target directory (dependencies, lexgen with hooks) and check the tools."""
     import subprocess
@@ -410,5 +762,8 @@ CHECKS = {
     "C06": check_C06,
     "C07": check_C07,
     "C08": check_C08,
+    "C09": check_C09,
     "C10": check_C10,
+    "C14": check_C14,
+    "C15": check_C15,
 }
